@@ -287,6 +287,37 @@ class FlowCx:
             out.extend(self._facts_from(c, vals, t, a))
         return out
 
+    def edge_facts(self, a, s):
+        """facts established by taking the edge a->s (a switch block)"""
+        t = self.fn.blocks[a]["t"]
+        if t["k"] != "sw" or len(set(t["t"])) < 2:
+            return []
+        return self._facts_from(self.cond_of_switch(a), self.taken_value(a, s), t, a)
+
+    def every_path_has(self, B, pred, depth=6, _seen=None):
+        """True when on every path from the entry to block B some fact satisfying `pred` is established: by the facts
+        that dominate B, or - at a join - on each incoming edge separately (disjunctive guards such as
+        `!(a == MIN && b == -1)` reach the guarded block over two edges with different facts)."""
+        if any(pred(x) for x in self.facts_at(B)):
+            return True
+        if depth == 0:
+            return False
+        _seen = _seen or set()
+        if B in _seen:
+            return False
+        _seen = _seen | {B}
+        preds = [p for p in self.fn.pred()[B] if not self.fn.blocks[p]["cl"]]
+        if not preds or B == 0:
+            return False
+        for p in preds:
+            if self.fn.dominates(B, p):
+                continue   # back edge: the path already went through B
+            if any(pred(x) for x in self.edge_facts(p, B)):
+                continue
+            if not self.every_path_has(p, pred, depth - 1, _seen):
+                return False
+        return True
+
     def _facts_from(self, c, vals, t, a):
         out = []
         isbool = t["dty"] == "bool"
